@@ -34,6 +34,7 @@ type hookProgram struct {
 	Code             int     `json:"code"`
 	RetryAfter       string  `json:"retryAfter"`
 	NetErr           bool    `json:"netErr"`
+	OmitStatus       bool    `json:"omitStatus"`
 }
 
 func (h *hookProgram) answer(url string, req J) (int, map[string]string, []byte, bool) {
@@ -50,6 +51,9 @@ func (h *hookProgram) answer(url string, req J) (int, map[string]string, []byte,
 	}
 	if h.Kind == "raw" {
 		return code, hdr, []byte(h.RawBody), false
+	}
+	if h.Kind == "template" {
+		return code, hdr, h.templateAnswer(req), false
 	}
 	resp := J{}
 	finalizing, _ := req["finalizing"].(bool)
@@ -81,6 +85,56 @@ func (h *hookProgram) answer(url string, req J) (int, map[string]string, []byte,
 	}
 	body, _ := k8sjson.Marshal(resp)
 	return code, hdr, body, false
+}
+
+// template: children = Template x parent.spec.replicas, each carrying parent.spec.image (revisioned)
+// and parent.spec.note (may be outside the revision field paths)
+func (h *hookProgram) templateAnswer(req J) []byte {
+	parent, _ := req["parent"].(map[string]interface{})
+	spec, _ := parent["spec"].(map[string]interface{})
+	n, _ := spec["replicas"].(int64)
+	image, _ := spec["image"].(string)
+	note, _ := spec["note"].(string)
+	cl := A{}
+	for i := int64(0); i < n; i++ {
+		for _, t := range h.Children {
+			c := runtime.DeepCopyJSON(t)
+			md := c["metadata"].(map[string]interface{})
+			md["name"] = fmt.Sprintf("%s%d", md["name"], i)
+			sp, _ := c["spec"].(map[string]interface{})
+			if sp == nil {
+				sp = J{}
+				c["spec"] = sp
+			}
+			sp["image"] = image
+			if note != "" {
+				sp["note"] = note
+			}
+			cl = append(cl, c)
+		}
+	}
+	resp := J{"children": cl}
+	if h.NullStatus {
+		resp["status"] = nil
+	} else if h.Status != nil {
+		resp["status"] = runtime.DeepCopyJSON(h.Status)
+	} else if !h.OmitStatus {
+		resp["status"] = J{"replicas": n}
+	}
+	if finalizing, _ := req["finalizing"].(bool); finalizing {
+		resp["children"] = A{}
+		observed := 0
+		if cm, ok := req["children"].(map[string]interface{}); ok {
+			for _, g := range cm {
+				if gm, ok := g.(map[string]interface{}); ok {
+					observed += len(gm)
+				}
+			}
+		}
+		resp["finalized"] = observed == 0
+	}
+	body, _ := k8sjson.Marshal(resp)
+	return body
 }
 
 // ---- external operations on the store ----
@@ -169,6 +223,26 @@ func (w *cworld) applyExt(op extOp) {
 		w.srv.Seed(cur)
 	case "create":
 		w.srv.Seed(runtime.DeepCopyJSON(op.Data))
+	case "status": // set status, no generation change
+		if cur == nil {
+			return
+		}
+		cur["status"] = op.Data
+		delete(md(cur), "resourceVersion")
+		w.srv.Seed(cur)
+	case "healthy-all": // the fair environment: every object of the kind reports Ready and its own generation
+		for _, o := range w.srv.AllLive() {
+			if o["apiVersion"] == op.APIVersion && o["kind"] == op.Kind {
+				g, _ := md(o)["generation"].(int64)
+				st := J{"conditions": A{J{"type": "Ready", "status": "True"}}}
+				if op.Data == nil || op.Data["noObservedGeneration"] != true {
+					st["observedGeneration"] = g
+				}
+				o["status"] = st
+				delete(md(o), "resourceVersion")
+				w.srv.Seed(o)
+			}
+		}
 	}
 }
 
@@ -394,7 +468,7 @@ func coqEvent(e event) string {
 		a := e.API
 		body := "JNull"
 		if a.Body != nil && a.Verb != "delete" {
-			body = vh.MustCoqJSON(a.Body)
+			body = vh.MustCoqJSON(stripNullCreation(a.Body))
 		}
 		call := fmt.Sprintf("(CApi (mkRq %s %s %s %s %s %s %s))", coqVerb(a.Verb),
 			vh.MustCoqString(resKey(a.Resource, a.APIVersion)), vh.MustCoqString(a.Namespace), vh.MustCoqString(a.Name),
@@ -518,7 +592,46 @@ func coqChecks(s *ctlSpec) string {
 	return "[" + strings.Join(parts, "; ") + "]"
 }
 
+func stripNullCreation(v interface{}) interface{} {
+	m, ok := v.(map[string]interface{})
+	if !ok {
+		return v
+	}
+	md, ok := m["metadata"].(map[string]interface{})
+	if !ok {
+		return v
+	}
+	if ct, present := md["creationTimestamp"]; present && ct == nil {
+		md2 := map[string]interface{}{}
+		for k, x := range md {
+			if k != "creationTimestamp" {
+				md2[k] = x
+			}
+		}
+		m2 := map[string]interface{}{}
+		for k, x := range m {
+			m2[k] = x
+		}
+		m2["metadata"] = md2
+		return m2
+	}
+	return v
+}
+
 func coqRound(s *ctlSpec, r *roundRec) string {
+	fresh := ""
+	for _, e := range r.Events {
+		if e.API != nil && e.API.Verb == "create" && e.API.Kind == "ControllerRevision" {
+			fresh = e.API.Name
+			if fresh == "" {
+				if b, ok := e.API.Body.(map[string]interface{}); ok {
+					if md, ok := b["metadata"].(map[string]interface{}); ok {
+						fresh, _ = md["name"].(string)
+					}
+				}
+			}
+		}
+	}
 	parent := "None"
 	if r.CacheParent != nil {
 		parent = "(Some " + vh.MustCoqJSON(map[string]interface{}(r.CacheParent)) + ")"
@@ -536,6 +649,7 @@ func coqRound(s *ctlSpec, r *roundRec) string {
 		}
 		groups = append(groups, fmt.Sprintf("(%s, [%s])", vh.MustCoqString(k), strings.Join(objs, "; ")))
 	}
+	groups = append(groups, fmt.Sprintf("(\"fresh-revision-name\", [JStr %s])", vh.MustCoqString(fresh)))
 	evs := []string{}
 	for _, e := range r.Events {
 		evs = append(evs, coqEvent(e))
@@ -564,7 +678,12 @@ func coqCase(c *caseRec) string {
 	for _, r := range c.Rounds {
 		rounds = append(rounds, coqRound(&c.Sc.Ctl, r))
 	}
-	return fmt.Sprintf("mkCase %s [%s]", coqCfg(&c.Sc.Ctl), strings.Join(rounds, ";\n "))
+	final := []string{}
+	for _, o := range c.Final {
+		final = append(final, vh.MustCoqJSON(map[string]interface{}(o)))
+	}
+	return fmt.Sprintf("mkCase %s [%s] [%s] %s", coqCfg(&c.Sc.Ctl), strings.Join(rounds, ";\n "), strings.Join(final, "; "),
+		vh.CoqStringList(c.Sc.Features))
 }
 
 // ---- the test entry point ----
@@ -610,7 +729,7 @@ func TestVerif_Composite(t *testing.T) {
 			t.Fatalf("scenario %d (%s): %v", i, sc.Family, err)
 		}
 		id := fmt.Sprintf("s%d", i)
-		replay := J{"scenario": sc, "features": sc.Features, "results": roundResults(rec)}
+		replay := J{"scenario": sc, "features": sc.Features, "results": roundResults(rec), "trace": traceSummary(rec)}
 		if err := w.Add(id, coqCase(rec), prop+"_check", replay); err != nil {
 			t.Fatal(err)
 		}
@@ -640,6 +759,38 @@ func TestVerif_Composite(t *testing.T) {
 	if err := w.Close(nil); err != nil {
 		t.Fatal(err)
 	}
+}
+
+// traceSummary: one readable line per event, for the replay files
+func traceSummary(c *caseRec) [][]string {
+	var out [][]string
+	for _, r := range c.Rounds {
+		var lines []string
+		for _, e := range r.Events {
+			if e.API != nil {
+				a := e.API
+				extra := ""
+				if a.Verb == "updatestatus" || a.Verb == "update" || a.Verb == "create" {
+					if b, ok := a.Body.(map[string]interface{}); ok {
+						if st, ok := b["status"].(map[string]interface{}); ok && a.Verb == "updatestatus" {
+							js, _ := json.Marshal(st)
+							extra = " status=" + string(js)
+						}
+						if ch, ok := b["children"]; ok && a.Kind == "ControllerRevision" {
+							js, _ := json.Marshal(ch)
+							extra = " children=" + string(js)
+						}
+					}
+				}
+				lines = append(lines, fmt.Sprintf("%s %s %s/%s -> %d %s%s", a.Verb, a.Kind, a.Namespace, a.Name, a.Code, a.Reason, extra))
+			} else {
+				lines = append(lines, fmt.Sprintf("hook %s -> %d", e.Hook.URL, e.Hook.Code))
+			}
+		}
+		lines = append(lines, "=> "+r.Result+" "+r.PanicMsg)
+		out = append(out, lines)
+	}
+	return out
 }
 
 func roundResults(c *caseRec) []string {
